@@ -802,6 +802,74 @@ func binY(r *gen.Node) *gen.Node {
 	return nil
 }
 
+// TestTripleQuoteDelimiters: a triple-quoted literal is closed by the delimiter that opened it. Any other run of three
+// quote characters does not close it: the spelling is malformed (or unterminated) and is rejected, whatever the body -
+// the empty body included.
+func TestTripleQuoteDelimiters(t *testing.T) {
+	n := 0
+	for _, open := range []string{"\"\"\"", "'''"} {
+		for mask := 0; mask < 8; mask++ {
+			cl := make([]byte, 3)
+			for i := range cl {
+				cl[i] = '"'
+				if mask&(1<<i) != 0 {
+					cl[i] = '\''
+				}
+			}
+			closer := string(cl)
+			for _, body := range []string{"", "a", "a\nb", "é", " ", "\\"} {
+				for _, tail := range []string{"", "\n", "\ny = 2"} {
+					src := "x = " + open + body + closer + tail
+					node, _, bad := observeFirst(src)
+					rp := replay{Src: src, Kind: "triple-quote-delimiters", Value: body}
+					if bad != "" {
+						rk.Fail(t, "delimiters", rp, "%s\nsource: %q", bad, src)
+					}
+					if closer == open {
+						if body == "\\" {
+							// a lone backslash in a body is outside this table (escape rules are covered elsewhere)
+							continue
+						}
+						if node == nil || node.Kind != gen.Str || node.S != body {
+							got := "rejected"
+							if node != nil {
+								got = node.Shape()
+							}
+							rp.Expect = "accepted"
+							rk.Fail(t, "delimiters", rp, "%q: a literal closed by its own delimiter parsed to %s, want the string %q", src, got, body)
+						}
+					} else if node != nil {
+						rp.Expect = "rejected"
+						rk.Fail(t, "delimiters", rp, "%q is accepted (as %s): the literal opened by %s is never closed by %s", src, node.Shape(), open, open)
+					}
+					evid.Case("delim/"+src, closer != open, "triple-quote-delimiters")
+					n++
+				}
+			}
+		}
+	}
+	evid.Exhaustive("opening delimiter x every run of three quote characters as closer x body x what follows", n)
+}
+
+// observeFirst parses src and returns the right side of its first statement (nil if the text is rejected).
+func observeFirst(src string) (*gen.Node, int, string) {
+	stmts, err, crash := impl.Parse("c07.p", src)
+	if crash != nil {
+		return nil, 0, "parser panicked: " + crash.Value
+	}
+	if err != nil {
+		return nil, 0, ""
+	}
+	tree, c := conv.Stmts(stmts)
+	if c.Err != nil {
+		return nil, 0, "malformed tree: " + c.Err.Error()
+	}
+	if len(tree) == 0 || tree[0] == nil || tree[0].Kind != gen.Assign || len(tree[0].Rhs) != 1 {
+		return nil, len(tree), ""
+	}
+	return tree[0].Rhs[0], len(tree), ""
+}
+
 func TestKeywordCase(t *testing.T) {
 	n := 0
 	for _, kw := range []struct {
